@@ -65,6 +65,11 @@ func (t *routeTrie) addRoute(config *methodConfig, rule *annotations.HttpRule) (
 	if method == "" {
 		return nil, errors.New("invalid HTTP rule: method is blank")
 	}
+	if method != "*" && !isHTTPToken(method) {
+		// (a custom kind is used as the HTTP method, of requests that are matched
+		// and of requests that are made to a REST backend)
+		return nil, fmt.Errorf("invalid HTTP rule: %q is not a valid HTTP method", method)
+	}
 	if template == "" {
 		return nil, errors.New("invalid HTTP rule: path template is blank")
 	}
@@ -80,6 +85,23 @@ func (t *routeTrie) addRoute(config *methodConfig, rule *annotations.HttpRule) (
 		return nil, err
 	}
 	return target, nil
+}
+
+// isHTTPToken reports whether s is a token as defined by RFC 9110, section 5.6.2.
+func isHTTPToken(s string) bool {
+	if s == "" {
+		return false
+	}
+	for i := 0; i < len(s); i++ {
+		c := s[i]
+		switch {
+		case c >= '0' && c <= '9', c >= 'a' && c <= 'z', c >= 'A' && c <= 'Z':
+		case strings.IndexByte("!#$%&'*+-.^_`|~", c) >= 0:
+		default:
+			return false
+		}
+	}
+	return true
 }
 
 func (t *routeTrie) insertChild(segment string) *routeTrie {
